@@ -355,5 +355,6 @@ pub proof fn lemma_C04_default_is_camel_case(case: Seq<char>, name: Seq<char>)
     reveal_strlit("SCREAMING-KEBAB-CASE");
 }
 
+//@ AUTO-FREE-FNS
 } // verus!
 fn main() {}
